@@ -11,7 +11,7 @@ def plan(tier):
             "grid_n3", "grid_n5", "grid_n11", "grid_n101", "grid_nonuniform",
             "conv_exact", "conv_approx", "conv_zero", "checked_special", "checked_boundary", "checked_outside",
             "accumulator_chain",
-            "exp_range_edge_sweep", "exp_biased_exponent_minus_one", "more_than_42000_summands",
+            "sub_nearly_equal_logs_large_magnitude", "exp_range_edge_sweep", "exp_biased_exponent_minus_one", "more_than_42000_summands",
             "grid_more_than_100000_points"],
         "rule": "self-contained operation events (operands and result as fixed-point images relative to the largest "
                 "operand) over a log grid of magnitudes (ratios 1 .. 1e-300 and beyond f64's range), the switch "
